@@ -5,6 +5,6 @@ cd /repo || exit 2
 git diff --quiet || { echo "repo dirty"; exit 2; }
 git apply "$p" || { echo "patch does not apply"; exit 2; }
 if git diff --name-only | grep -q '\.[ch]$'; then echo "(C change: extensions rebuild automatically)"; fi
-cd /verif && ./vcheck "$prop" "$@" 2>&1 | grep -v "^  ('" | tail -8
+cd /verif && VERIF_EVIDENCE_DIR=/tmp/hyverif-evidence-scratch ./vcheck "$prop" "$@" 2>&1 | grep -v "^  ('" | tail -8
 rc=$?
 cd /repo && git checkout -- . && git status --short | grep -v run_scripts
